@@ -46,5 +46,7 @@ def run(ctx):
     R3.r01_13_extras_partition(ctx, 'R02.18')
     R3.r02_19_tag_checks_read_the_document(ctx, 'R02.19')
     S.r01_3_recursion(ctx)
+    # the savorize step of the pipeline: base classes first, each class that defines the hook, before the attributes are judged
+    S.r10_hooks(ctx, ids=('R02.20', 'R02.21', 'R02.22'), only_hooks={'_yatiml_savorize'})
     from . import memo_rules as M
     M.memo_sound(ctx, 'R02.M')
